@@ -428,7 +428,7 @@ def run_case(spec, *, extra=None, wf=None, ctx_factory=None, start=True) -> Trac
     return tr
 
 
-def run_with_snapshots(spec, *, every=True, only_k=None, extra=None):
+def run_with_snapshots(spec, *, every=True, only_k=None, extra=None, **run_kwargs):
     """Run a case taking ctx.to_dict() (through JSON) at the control loop's yield points (entry of wait_for_next_task).
     Returns (trace, snaps) with snaps[i] = {"k": i, "ticks": <ticks reduced so far>, "snap": dict | None, "err": str | None}."""
     snaps = []
@@ -450,5 +450,5 @@ def run_with_snapshots(spec, *, every=True, only_k=None, extra=None):
 
     ex = dict(extra or {})
     ex["at_yield"] = at_yield
-    tr = run_case(spec, extra=ex)
+    tr = run_case(spec, extra=ex, **run_kwargs)
     return tr, snaps
